@@ -10,6 +10,7 @@ mod lang;
 mod rt;
 mod bkd;
 mod uid;
+mod stop;
 
 pub fn hex(b: &[u8]) -> String {
     if b.is_empty() {
@@ -46,6 +47,7 @@ fn dispatch(cmd: &str, args: &[&str]) -> String {
         "RUN" => rt::run(args),
         "GETF" => rt::getf(args),
         "UID" => uid::uid(args),
+        "STOP" => stop::stop(args),
         _ => "BADCMD".to_string(),
     }
 }
@@ -78,6 +80,7 @@ fn main() {
         let (cmd, id, args) = (toks[0], toks[1], &toks[2..]);
         let res = panic::catch_unwind(|| dispatch(cmd, args)).unwrap_or_else(|_| "PANIC".to_string());
         writeln!(out, "{} {}", id, res).unwrap();
+        out.flush().unwrap(); // a case that never returns must not swallow the answers before it
     }
     out.flush().unwrap();
 }
